@@ -29,6 +29,14 @@ case = {'kind': str, 'server': bool, 'ops': [op...], 'cfg'?: {'obfuscate': 0|1, 
     obf: 0 regular port, 1 obfuscated port, 2 both ports advertised (back: in the ConnectToPeer message; direct / api:
          the address is looked up with GetPeerAddress), 3 / 4 (direct / api): looked up, regular / obfuscated port only
     ['at', i, 'burst', [[name, arg?], ...]]: several calls / events in ONE loop iteration (no quiescent point between)
+    ['at', i, 'hangup', 'eof'|'reset']: the remote end closes / resets its side of the socket WHOEVER is (or is not) reading
+         at that moment (monitor only; `eof` / `reset` are the same event delivered to a parked reader).  A connection the
+         library itself reads from (an accepted connection before / after its first frame, a type P connection, the server
+         connection) must then be reported CLOSED and leave the registry once nothing is pending any more
+    ['at', i, 'firstFrame', kind]: kind = initP | initF | pierceP | pierceF | pierceUnknown | pierceApi, or a COMPLETE frame
+         (initD / initX: a PeerInit of a distributed connection / of a connection type nobody knows; monitor only)
+         that is no peer-init message (UNDECODABLE_FIRST: unknown code without / with a body, a PeerInit / PeerPierceFirewall
+         whose body is cut short inside a complete frame, a frame of length 0)
 An op that is not enabled on the implementation (nothing parked there) is skipped and not sent to the
 model; grid scenarios are written so that nothing is skipped.
 
@@ -127,6 +135,8 @@ class _Slot:
         self.acts: list = []         # result tokens of the calls a listener made from inside a notification
         self.ticket = 100 + idx
         self.remote_closed = False   # the remote end closed/reset the socket while the library was reading/draining
+        self.hung = None             # 'eof' | 'reset': the remote end hung up no matter who was reading (`hangup`)
+        self.first = None            # kind of the first frame an accepted connection was sent
 
 
 def _run_impl(case: dict) -> dict:
@@ -509,8 +519,14 @@ def _run_impl(case: dict) -> dict:
                           and in_stream_read(c._reader_task))
                 if name == 'release':
                     return gate.is_parked(slot.idx, arg)
-                if name in ('firstFrame', 'frame', 'partialEof', 'eof', 'reset', 'data') and slot.remote_closed:
+                if name in ('firstFrame', 'frame', 'partialEof', 'eof', 'reset', 'data', 'hangup') and slot.remote_closed:
                     return False              # the remote end is gone: it sends / closes nothing any more
+                if name == 'hangup':
+                    # the remote end can always close / reset its side of a socket that exists (also one the library has
+                    # closed already, and one nobody reads from)
+                    if arg not in ('eof', 'reset'):
+                        raise ValueError(arg)
+                    return libw(slot) is not None and slot.origin != 'api'
                 if name == 'firstFrame':
                     return awaiting
                 if name == 'frame':
@@ -662,7 +678,8 @@ def _run_impl(case: dict) -> dict:
                     slot.task.cancel()
                 elif name == 'firstFrame':
                     rw = libw(slot).peer
-                    if arg in ('initP', 'initF'):
+                    if arg in ('initP', 'initF', 'initD', 'initX'):
+                        # (initD: a distributed connection, initX: a connection type nobody knows — monitor only)
                         data = PeerInit.Request(f'peer{slot.idx}', arg[-1], 0).serialize()
                     elif arg in ('pierceP', 'pierceF'):
                         tk = 500 + slot.idx
@@ -677,10 +694,12 @@ def _run_impl(case: dict) -> dict:
                         apis = [ctp_ticket(s_) for s_ in slots if s_.origin == 'api']
                         apis = [t_ for t_ in apis if t_ is not None]
                         data = PeerPierceFirewall.Request(apis[-1] if apis else 999998).serialize()
-                    elif arg == 'undecodable':
-                        data = b'\x01\x00\x00\x00\x63'
+                    elif arg in UNDECODABLE_FIRST:
+                        data = _undecodable_first(arg, PeerInit.Request(f'peer{slot.idx}', 'P', 0).serialize(),
+                                                  PeerPierceFirewall.Request(500 + slot.idx).serialize())
                     else:
                         raise ValueError(arg)
+                    slot.first = arg
                     rw.write(enc(slot, data))
                 elif name == 'frame':
                     rw = libw(slot).peer
@@ -701,6 +720,14 @@ def _run_impl(case: dict) -> dict:
                 elif name == 'reset':
                     libw(slot).peer.reset()
                     slot.remote_closed = True
+                elif name == 'hangup':
+                    rw = libw(slot).peer
+                    if arg == 'eof':
+                        rw.close()
+                    else:
+                        rw.reset()
+                    slot.remote_closed = True
+                    slot.hung = arg
                 elif name == 'readTimeout':
                     assert fire_timer(loop, c, 'read')
                 elif name == 'disconnect':
@@ -802,6 +829,7 @@ def _run_impl(case: dict) -> dict:
                     slot.task = asyncio.ensure_future(net.connect_server())
                     slot.task_reported = False
                     slot.remote_closed = False
+                    slot.hung = None
                 else:
                     raise ValueError(name)
 
@@ -921,10 +949,24 @@ def _run_impl(case: dict) -> dict:
                     if w is not None and s.conn is not None and not owned(w, s.conn):
                         w = None              # the newest socket to this address belongs to another object
                     o_open, o_opening = obj_view(s.conn)
+                    # `hangup`: the remote end is gone.  Nothing is PENDING when no close / no write of this connection
+                    # is parked and no listener of one of its notifications is suspended; the library itself reads from
+                    # every connection but an initialised file connection (the transfer code reads / writes those)
+                    lw = libw(s)
+                    pending = bool(lw is not None and (lw.close_parked() or lw.drain_parked() or lw.closing_stalled)) \
+                        or any(e[0] == s.idx and not e[2].done() for e in gate.parked)
+                    is_file = s.origin == 'api' or (s.first in ('initF', 'pierceF', 'pierceApi') if s.origin == 'incoming'
+                                                    else bool(s.typF))
+                    # (a connect-back task the SCHEDULE cancelled while it was writing its init message leaves the
+                    # connection CONNECTED and registered without a reader; the library cancels these tasks only in
+                    # Network.disconnect(), which closes every registered connection right after: not judged either)
+                    is_file = is_file or (s.origin == 'back' and s.task is not None and s.task.cancelled())
                     facts['conns'][str(s.idx)] = {
                         'origin': s.origin,
                         'open': bool(o_open or (w is not None and ((not w._closed) or w.close_parked()))),
-                        'ended_by_remote': bool(s.remote_closed and not (w is not None and w.close_parked())
+                        'hung': s.hung,
+                        'gone': bool(s.hung and not pending and not is_file),
+                        'ended_by_remote': bool(s.remote_closed and not s.hung and not (w is not None and w.close_parked())
                                                 and not gate.is_parked(s.idx, 'CLOSING')),
                         'opening': bool(o_opening or (s.conn is None and parked_key(s) is not None
                                                       and s.task is not None and not s.task.done())),
@@ -1048,7 +1090,31 @@ def _run_impl(case: dict) -> dict:
 # model side
 # --------------------------------------------------------------------------------------------
 
-UNMODELLED_OPS = ('sendFile', 'recvFile', 'recvEof', 'recvEofQuiet', 'unstall', 'cannotConnect', 'indirectTimeout')
+UNMODELLED_OPS = ('sendFile', 'recvFile', 'recvEof', 'recvEofQuiet', 'unstall', 'cannotConnect', 'indirectTimeout',
+                  'hangup')
+
+# complete first frames of an accepted connection that are no peer-init message: the model's `undecodable`
+UNDECODABLE_FIRST = ('undecodable', 'badCode2', 'badCodeBody', 'initCut', 'pierceCut', 'emptyFrame')
+
+
+def _undecodable_first(kind: str, init: bytes, pierce: bytes) -> bytes:
+    """a COMPLETE frame (length prefix = what follows) that does not deserialize as PeerInit / PeerPierceFirewall;
+    `init` / `pierce` = well-formed messages to cut"""
+    if kind == 'undecodable':
+        body = b'\x63'                                  # unknown init code, no body
+    elif kind == 'badCode2':
+        body = b'\x02'                                  # the first code that is not an init message
+    elif kind == 'badCodeBody':
+        body = b'\xc8' + b'\x07\x00\x00\x00garbage!'    # unknown code with a body
+    elif kind == 'initCut':
+        body = init[4:len(init) - 6]                    # PeerInit: type string and ticket cut off
+    elif kind == 'pierceCut':
+        body = pierce[4:6]                              # PeerPierceFirewall: the code and one byte of the ticket
+    elif kind == 'emptyFrame':
+        body = b''                                      # length 0: not even a code
+    else:
+        raise ValueError(kind)
+    return struct.pack('<I', len(body)) + body
 
 
 def _model_groups(case: dict, io: dict):
@@ -1096,7 +1162,7 @@ def _model_groups(case: dict, io: dict):
             _, i, name = op[:3]
             arg = op[3] if len(op) > 3 else None
             if name in UNMODELLED_OPS or (name == 'closeDone' and arg == 'raise') or \
-                    (name == 'firstFrame' and arg == 'pierceApi'):
+                    (name == 'firstFrame' and arg in ('pierceApi', 'initD', 'initX')):
                 return None
             if name == 'connectOk':
                 cfg_of[i] = arg
@@ -1164,6 +1230,8 @@ def _op_line(i, name, arg) -> str:
         return f'at {i} disconnect' + f'\nat {i} disconnect' * (n - 1)
     if name in ('closeDone', 'connectFail', 'recvData', 'data'):
         return f'at {i} {name}'
+    if name == 'firstFrame' and arg in UNDECODABLE_FIRST:
+        return f'at {i} firstFrame undecodable'
     if name in ('frame', 'sendTimeout'):
         return f'at {i} {name} {int(bool(arg))}'
     if arg is not None:
@@ -1260,11 +1328,21 @@ def _monitor(case: dict, impl: dict) -> list[Violation]:
             for (opno, tok) in per.get(i, []):
                 if opno <= n and tok.split(':')[0] in RANK:
                     last = tok.split(':')[0]
-            want = last != 'CLOSED' and (f['open'] or f['opening'])
+            if f.get('hung') and not f.get('gone'):
+                # the remote end hung up on a connection the library is not reading from (an initialised file
+                # connection: the transfer code reads / writes it), or a close / a write / a listener of the connection
+                # is still pending: not judged at this moment
+                continue
+            # (`gone`: the remote end hung up and nothing is pending — the library's side of the socket may still be
+            # un-closed, but the connection is not open any more)
+            want = last != 'CLOSED' and ((f['open'] and not f.get('gone')) or f['opening'])
             have = i in reg
             if want != have:
                 what = ('is registered but neither open nor being opened by a running attempt (or already CLOSED)'
                         if have else 'is open / being opened but not registered')
+                if have and f.get('gone') and f['open']:
+                    what = (f'is registered although the remote end has hung up ({f["hung"]}) and nothing of the '
+                            'connection is pending: nobody reads from it, it stays registered for ever')
                 add('C10-registry-leak' if have else 'C10-registry-missing',
                     f'after op #{n} {impl["executed"][n]}: connection {i} {what}',
                     {'registered': have, 'last_reported': last, **f}, 'registry = open or opening connections')
@@ -1273,7 +1351,13 @@ def _monitor(case: dict, impl: dict) -> list[Violation]:
         facts = impl['facts'][-1]
         for i, f in facts['conns'].items():
             states = [t.split(':')[0] for _, t in per.get(i, []) if t.split(':')[0] in RANK]
-            if states and not f['open'] and not f['opening'] and states[-1] != 'CLOSED':
+            if f.get('hung') and not f.get('gone'):
+                continue              # (see above: not judged)
+            if states and f.get('gone') and not f['opening'] and states[-1] != 'CLOSED':
+                add('C10-never-closed', f'connection {i}: the remote end has hung up ({f["hung"]}), no close / write / '
+                    f'listener of the connection is pending, but its last reported state is {states[-1]}', states,
+                    'CLOSED is reported for every connection whose life ended')
+            elif states and not f['open'] and not f['opening'] and states[-1] != 'CLOSED':
                 add('C10-never-closed', f'connection {i} has no socket and no running attempt but its last reported '
                     f'state is {states[-1]}', states, 'CLOSED is reported for every connection whose life ended')
             elif states and f.get('ended_by_remote') and states[-1] != 'CLOSED':
@@ -1370,6 +1454,11 @@ def _grid() -> list[dict]:
                                      ('local-before-init', [['at', 0, 'disconnect']]),
                                      ('local2-before-init', [['at', 0, 'disconnect', 2]]),
                                      ('undecodable-init', [['at', 0, 'firstFrame', 'undecodable']]),
+                                     ('unknown-code-init', [['at', 0, 'firstFrame', 'badCode2']]),
+                                     ('unknown-code-body-init', [['at', 0, 'firstFrame', 'badCodeBody']]),
+                                     ('cut-peerinit', [['at', 0, 'firstFrame', 'initCut']]),
+                                     ('cut-pierce', [['at', 0, 'firstFrame', 'pierceCut']]),
+                                     ('empty-first-frame', [['at', 0, 'firstFrame', 'emptyFrame']]),
                                      ('unknown-ticket', [['at', 0, 'firstFrame', 'pierceUnknown']]),
                                      ('send-fail-before-init', [['at', 0, 'send', 'fail']]),
                                      ('send-timeout-before-init', [['at', 0, 'send', 'block'], ['at', 0, 'sendTimeout', 0]])]:
@@ -1721,6 +1810,66 @@ def _raw_grid() -> list[dict]:
 
 
 
+def _hangup_grid() -> list[dict]:
+    """The remote end hangs up (`hangup` eof / reset: whoever is or is not reading at that moment) — on an accepted
+    connection (plain / obfuscated port) before its first frame, after every kind of first frame (well-formed PeerInit /
+    PeerPierceFirewall of both types, unknown ticket, and every COMPLETE frame that is no init message), with the
+    application having written to it or not, wait_closed() returning / suspending / raising; and on established outgoing
+    and server connections.  No local call closes the connection before the remote end is gone; what follows are probes.
+    Monitor only (the model has `eof` / `reset` for a parked reader)."""
+    cases = []
+    firsts = [None, 'initP', 'initF', 'initD', 'initX', 'pierceP', 'pierceF', 'pierceUnknown'] + list(UNDECODABLE_FIRST)
+    tails = [('', []), ('send', [['send', 'ok']]), ('local', [['disconnect'], ['send', 'ok']]),
+             ('probes', [['frame', 1], ['send', 'ok'], ['queue', 'ok'], ['eof'], ['readTimeout']])]
+    for obf in (0, 1):
+        for slow in (0, 1, 3):
+            for first in firsts:
+                for hang in ('eof', 'reset'):
+                    for mid_n, mid in (('', []), ('sent', [['send', 'ok']]), ('queued', [['queue', 'ok']])):
+                        for tname, tail in tails:
+                            if mid and tname not in ('', 'local'):
+                                continue
+                            ops = [['new', 'incoming', 0, slow, obf]]
+                            if first:
+                                ops.append(['at', 0, 'firstFrame', first])
+                            ops += [_at(o) for o in mid] + [['at', 0, 'hangup', hang]]
+                            if slow == 1:
+                                ops.append(['at', 0, 'closeDone', 'release'])
+                            ops += [_at(o) for o in tail]
+                            if slow == 1:
+                                ops.append(['at', 0, 'closeDone', 'release'])
+                            # another peer connects afterwards: the registry is looked at once more
+                            ops += [['new', 'incoming', 0, 0, obf], ['at', 1, 'firstFrame', 'initP']]
+                            cases.append({'kind': f'hangup:incoming{"-obf" if obf else ""}-close{slow}:{first or "silent"}:'
+                                                  f'{mid_n}:{hang}:{tname}', 'server': False, 'ops': ops})
+    # a suspended listener of CONNECTED holds the accept handler back: the hang-up is there when it goes on
+    for obf in (0, 1):
+        for slow in (0, 1):
+            for hang in ('eof', 'reset'):
+                cases.append({'kind': f'hangup:incoming{"-obf" if obf else ""}-close{slow}:held-CONNECTED::{hang}:',
+                              'server': False,
+                              'ops': [['gate', [[0, 'CONNECTED', 'park']]], ['new', 'incoming', 0, slow, obf], ['gate', []],
+                                      ['at', 0, 'hangup', hang], ['at', 0, 'release', 'CONNECTED'],
+                                      ['at', 0, 'closeDone', 'release'], ['at', 0, 'send', 'ok']]})
+    for origin in ('direct', 'back'):
+        for typF in (0, 1):
+            for slow in (0, 1):
+                for hang in ('eof', 'reset'):
+                    for how in ('ok', 'block', 'fail'):
+                        ops = [['new', origin, typF, slow, slow], ['at', 0, 'connectOk', how], ['at', 0, 'hangup', hang],
+                               ['at', 0, 'drainOk'], ['at', 0, 'closeDone', 'release'], ['at', 0, 'send', 'ok'],
+                               ['at', 0, 'recvData'], ['at', 0, 'closeDone', 'release']]
+                        cases.append({'kind': f'hangup:{origin}-{"F" if typF else "P"}-close{slow}:init-{how}:{hang}',
+                                      'server': False, 'ops': ops})
+    for slow in (0, 1):
+        for hang in ('eof', 'reset'):
+            cases.append({'kind': f'hangup:server-close{slow}:{hang}', 'server': True,
+                          'ops': [['new', 'server', 0, slow, 0], ['at', 0, 'connectOk', 'ok'], ['at', 0, 'hangup', hang],
+                                  ['at', 0, 'closeDone', 'release'], ['at', 0, 'restart'], ['at', 0, 'connectOk', 'ok'],
+                                  ['at', 0, 'frame', 1]]})
+    return cases
+
+
 def _queue_core(c: dict) -> bool:
     k = c['kind']
     return ((':q:' in k and k.endswith('drain@2')) or (':burst:' in k and k.endswith('+REQUESTED:'))
@@ -1786,7 +1935,7 @@ def _cfg_grid() -> list[dict]:
 OPS_W = [('connectFail', 'overflow', 1), ('connectOk', 'ok', 8), ('connectOk', 'block', 3), ('connectOk', 'fail', 2), ('connectFail', None, 3),
          ('connectTimeout', None, 2), ('cancelAttempt', None, 4), ('firstFrame', 'initP', 4), ('firstFrame', 'initF', 1),
          ('firstFrame', 'pierceP', 2), ('firstFrame', 'pierceF', 1), ('firstFrame', 'pierceUnknown', 1),
-         ('firstFrame', 'undecodable', 1), ('frame', 1, 5), ('frame', 0, 2), ('partialEof', None, 1), ('eof', None, 2),
+         ('firstFrame', 'undecodable', 1), ('firstFrame', 'badCodeBody', 1), ('firstFrame', 'initCut', 1), ('frame', 1, 5), ('frame', 0, 2), ('partialEof', None, 1), ('eof', None, 2),
          ('reset', None, 2), ('readTimeout', None, 2), ('disconnect', None, 4), ('disconnect', 2, 2), ('disconnect', 'frame', 2),
          ('closeDone', 'release', 5), ('closeDone', 'timeout', 2), ('send', 'ok', 5), ('send', 'block', 3),
          ('send', 'fail', 2), ('drainOk', None, 4), ('sendTimeout', 0, 2), ('sendTimeout', 1, 2),
@@ -1833,6 +1982,7 @@ def _gen_random(rng: random.Random) -> dict:
     if monitor_only:
         cfg.update(mode=rng.choice(['fallback', 'race']), monitor_only=True)
         pool += [('cannotConnect', None), ('indirectTimeout', None), ('firstFrame', 'pierceApi')] * 3
+        pool += [('hangup', 'eof'), ('hangup', 'reset')] * 2       # the remote end hangs up whoever reads (monitor only)
     # suspended / acting listeners of the state notifications, raw data calls on file connections
     held = rng.random() < 0.35
     if held:
@@ -1963,6 +2113,11 @@ WITNESSES = [
     {'kind': 'witness:send-data-from-inside-closed-notification', 'server': False,
      'ops': [['new', 'incoming', 0, 2, 0], ['at', 0, 'firstFrame', 'initF'], ['gate', [[0, 'CLOSED', 'act:sendData']]],
              ['at', 0, 'disconnect'], ['at', 0, 'closeDone', 'timeout'], ['at', 0, 'unstall']]},
+    # a COMPLETE first frame that is no init message, then the remote end hangs up: closed by the library, never abandoned
+    # (the class of seed C10-m)
+    {'kind': 'witness:accepted-complete-undecodable-frame-then-hangup', 'server': False,
+     'ops': [['new', 'incoming', 0, 0, 1], ['at', 0, 'firstFrame', 'badCodeBody'], ['at', 0, 'hangup', 'eof'],
+             ['new', 'incoming', 0, 0, 0], ['at', 1, 'firstFrame', 'initCut'], ['at', 1, 'hangup', 'reset']]},
     {'kind': 'witness:looked-up-both-ports-first-fails', 'server': False, 'cfg': {'obfuscate': 1},
      'ops': [['new', 'direct', 0, 0, 2], ['at', 0, 'connectFail'], ['at', 0, 'connectOk', 'ok'], ['at', 0, 'frame', 1],
              ['at', 0, 'send', 'ok'], ['at', 0, 'eof']]},
@@ -1993,7 +2148,7 @@ class C10(Property):
             'requested in the same loop iteration behind the call or in the window a slow wait_closed opens (model: cancel '
             'of the running connect-back tasks + disconnect() on the server connection and every registered connection); '
             'plus random op sequences (6..22 ops over 1..3 connections, all of the above ops, 12 % monitor-only with '
-            'create_peer_connection and bursts that mix calls and remote events) derived from VERIF_SEED; the quick tier runs '
+            'create_peer_connection, bursts that mix calls and remote events, and remote hang-ups whoever reads) derived from VERIF_SEED; the quick tier runs '
             'the core of the two added grids plus a quarter / a third of the rest rotated by the seed. '
             'SUSPENDED STATE LISTENERS: an application listener of ConnectionStateChangedEvent, registered behind the recorder, '
             'that suspends at (or calls disconnect / send_message / send_data from inside) the CONNECTING / CONNECTED / CLOSING '
@@ -2008,6 +2163,13 @@ class C10(Property):
             'raw bytes from the peer) before / while / after every way of closing x wait_closed {returns, suspends and then '
             'returns / runs into the 5 s timeout / raises, with a peer that has stopped reading so that close() leaves the '
             'transport alive and writable, raises at once} (5 400 scenarios; quick: the modelled core + 1/4 by seed). '
+            'REMOTE HANG-UP WHOEVER READS (`hangup` eof / reset; monitor only): accepted connections on both ports x '
+            'wait_closed {returns, suspends, raises} x first frame {none, PeerInit P/F/D/unknown type, PeerPierceFirewall P/F, unknown ticket, '
+            '6 COMPLETE frames that are no init message: unknown code without / with body, PeerInit / PeerPierceFirewall cut '
+            'short inside the frame, length 0} x application wrote / queued before x eof / reset x probes, a CONNECTED '
+            'listener suspended meanwhile; established / init-parked / init-failed outgoing P and F connections; the server '
+            'connection (1 404 scenarios, all in the quick tier): a connection the library itself reads from must be CLOSED '
+            'and unregistered once the remote end is gone and nothing is pending. '
             'Modelled: everything but stalled / raising transports, send_file / receive_file / receive_until_eof, a server '
             'reconnect while a CLOSED listener of the previous life is still busy, create_peer_connection. The monitor keeps one '
             'track per connection OBJECT (also objects the scenario did not ask for). A case is non-trivial when a connection was reported CLOSED and at least 3 ops were executed; '
@@ -2030,6 +2192,9 @@ class C10(Property):
         'nothing else is, a reset is not scheduled (which drain waiter wakes first is not part of the control state)',
         'nobody but the reader loop / accept handler reads from a connection (type F connections are not read here), '
         'so EOF/reset/frames are only delivered to a parked reader',
+        '`hangup` closes / resets the remote side no matter who reads; the monitor then demands CLOSED + unregistered for every '
+        'connection but an initialised file connection (the transfer code reads / writes those: not judged) as soon as no '
+        'wait_closed / drain of the connection is parked and no listener of one of its notifications is suspended',
         'the server connection stays connected while a connect-back attempt reports CannotConnect',
     ]
     modelled = ('Connection.set_state incl. the listeners it awaits (each notification a step: noteA / noteC / parkA / parkC); '
@@ -2056,7 +2221,7 @@ class C10(Property):
         hg = [c for k, c in enumerate(_held_grid())
               if full or ':timeout-then:' in c['kind'] or (_held_core(c) and k % 4 == seed % 4) or k % 16 == seed % 16]
         rg = [c for k, c in enumerate(_raw_grid()) if full or c['kind'].endswith(':core') or k % 4 == seed % 4]
-        cases = list(WITNESSES) + _grid() + qg + cg + hg + rg + [_gen_random(rng) for _ in range(n)]
+        cases = list(WITNESSES) + _grid() + _hangup_grid() + qg + cg + hg + rg + [_gen_random(rng) for _ in range(n)]
         return cases
 
     def correspondence(self, seed, tier, model_ok, widen=1):
